@@ -45,6 +45,8 @@ def case_strategy(draw: Any) -> Dict[str, Any]:
         # how the slow applications spread their response over time: all of it at the end, or
         # the body early and only the (empty / last) final message inside the grace period
         "tail": draw(st.sampled_from(["none", "none", "empty", "data"])),
+        # serve() called without a shutdown_trigger (only meaningful with max_requests)
+        "no_callable": draw(st.booleans()),
     }
 
 
@@ -84,7 +86,8 @@ def req(path: str) -> bytes:
 
 
 async def scenario(env: Any, case: Dict[str, Any]) -> Dict[str, Any]:
-    env.start_server()
+    env.start_server(callable_trigger=not (case.get("no_callable")
+                                           and case["trigger"] == "max_requests"))
     await env.settle0()
     conns: List[Dict[str, Any]] = []
     for phase in case["conns"]:
